@@ -70,8 +70,12 @@ type poller struct {
 	// on the same IO object.
 	lck sync.Mutex
 
-	// pending is the number of pending posts the poller needs to execute
+	// pending is the number of pending operations (registered events and posts) the poller needs to execute. Post may
+	// be called from any goroutine, so it is only accessed atomically.
 	pending int64
+
+	// spare is the slice handlers are swapped into while they run; only touched by the polling goroutine.
+	spare []func()
 
 	// closed is true if the close() has been called on fd
 	closed uint32
@@ -105,13 +109,13 @@ func NewPoller() (Poller, error) {
 		return nil, err
 	}
 	// ignore the waker
-	p.pending--
+	atomic.AddInt64(&p.pending, -1)
 
 	return p, err
 }
 
 func (p *poller) Pending() int64 {
-	return p.pending
+	return atomic.LoadInt64(&p.pending)
 }
 
 func (p *poller) Close() error {
@@ -130,7 +134,7 @@ func (p *poller) Closed() bool {
 func (p *poller) Post(handler func()) error {
 	p.lck.Lock()
 	p.posts = append(p.posts, handler)
-	p.pending++
+	atomic.AddInt64(&p.pending, 1)
 	p.lck.Unlock()
 
 	verifPoint("post:after-append")
@@ -225,13 +229,19 @@ func (p *poller) dispatch() {
 
 	verifPoint("dispatch:before-lock")
 
+	// Swap the queue out under the lock and run the handlers without holding it: a handler may call Post itself (that
+	// handler runs in the next dispatch) and other goroutines are not blocked while handlers execute.
 	p.lck.Lock()
-	for _, handler := range p.posts {
-		handler()
-		p.pending--
-	}
-	p.posts = p.posts[:0]
+	posts := p.posts
+	p.posts = p.spare[:0]
 	p.lck.Unlock()
+
+	for i, handler := range posts {
+		handler()
+		posts[i] = nil
+		atomic.AddInt64(&p.pending, -1)
+	}
+	p.spare = posts[:0]
 }
 
 func (p *poller) SetRead(slot *Slot) error {
@@ -245,7 +255,7 @@ func (p *poller) SetWrite(slot *Slot) error {
 func (p *poller) setRW(fd int, slot *Slot, flag PollerEvent) error {
 	events := &slot.Events
 	if *events&flag != flag {
-		p.pending++
+		atomic.AddInt64(&p.pending, 1)
 
 		oldEvents := *events
 		*events |= flag
@@ -259,7 +269,7 @@ func (p *poller) setRW(fd int, slot *Slot, flag PollerEvent) error {
 		if err != nil {
 			// The kernel refused the registration (descriptor not pollable, closed, ...): nothing is pending on it.
 			*events = oldEvents
-			p.pending--
+			atomic.AddInt64(&p.pending, -1)
 		}
 		return err
 	}
@@ -310,7 +320,7 @@ func (p *poller) Del(slot *Slot) error {
 func (p *poller) DelRead(slot *Slot) error {
 	events := &slot.Events
 	if *events&PollerReadEvent == PollerReadEvent {
-		p.pending--
+		atomic.AddInt64(&p.pending, -1)
 		*events ^= PollerReadEvent
 		if *events != 0 {
 			return p.modify(slot.Fd, createEvent(*events, slot))
@@ -323,7 +333,7 @@ func (p *poller) DelRead(slot *Slot) error {
 func (p *poller) DelWrite(slot *Slot) error {
 	events := &slot.Events
 	if *events&PollerWriteEvent == PollerWriteEvent {
-		p.pending--
+		atomic.AddInt64(&p.pending, -1)
 		*events ^= PollerWriteEvent
 		if *events != 0 {
 			return p.modify(slot.Fd, createEvent(*events, slot))
